@@ -9,9 +9,8 @@ void harness(void)
     xv_ghost_havoc();
     xv_tpcore_havoc();
     struct xcm_socket *s;
-    long e0 = xv_en_calls, c0 = xv_ctlc_calls, l0 = xv_ctl_live;
     xcm_tp_socket_enable_ctl(s);
-    if (xv_en_calls == e0 + 1 && xv_ctlc_calls == c0) XV_CANARY("transport has its own enable_ctl");
-    if (xv_en_calls == e0 && xv_ctlc_calls == c0 + 1 && xv_ctl_live == l0 + 1) XV_CANARY("generic: control interface created");
-    if (xv_en_calls == e0 && xv_ctlc_calls == c0 + 1 && xv_ctl_live == l0 && xv_ctlc_ret == NULL) XV_CANARY("generic: ctl_create failed silently");
+    if (xv_g_own_en) XV_CANARY("transport has its own enable_ctl");
+    if (!xv_g_own_en && xv_ctlc_ret != NULL) XV_CANARY("generic: control interface created");
+    if (!xv_g_own_en && xv_ctlc_ret == NULL) XV_CANARY("generic: ctl_create failed silently");
 }
